@@ -36,6 +36,17 @@ def corrupt(data: bytes, how) -> bytes:
     return bytes(b)
 
 
+def alter_len(data: bytes, kind: str) -> bytes:
+    """Wrong-length variants of a value: empty, last byte dropped, one byte appended, the value twice."""
+    data = bytes(data)
+    return {"len0": b"", "short": data[:-1], "long": data + b"\x5a", "double": data + data,
+            "prefix63": data[:-1], "extended": data + b"\x5a"}[kind]
+
+
+LEN_KINDS = ("len0", "short", "long", "double")
+_PS_STATE = {"empty": lambda n: b"", "trailing": lambda n: bytes([n, 0xFF]), "ok": lambda n: bytes([n]), "wrong": lambda n: b"\x01"}
+
+
 def corruptions(nbytes: int, rng, every: bool, sample: int = 8):
     """The expansion of a symbolic Corrupt(site) over a field of nbytes: every single bit and every
     byte position (thorough) or first / last bit, `sample` seeded bits and 3 byte replacements (quick)."""
@@ -218,7 +229,7 @@ class PVWorld:
 
     def _value(self, r, t, role, how):
         if t == "state":
-            return T.STATE, (b"\x02" if r["st"] == "ok" else b"\x04")
+            return T.STATE, {"ok": b"\x02", "wrong": b"\x04", "empty": b"", "trailing": b"\x02\xff"}[r["st"]]
         if t == "error":
             return T.ERROR, b"\x02"
         if t == "method":
@@ -332,13 +343,15 @@ class PSWorld:
     def _item2(self, r, name, honest, how):
         hd = dict(honest)
         if name == "state":
-            return T.STATE, (b"\x02" if r["st"] == "ok" else b"\x01")
+            return T.STATE, _PS_STATE[r["st"]](2)
         if name == "error":
             return T.ERROR, b"\x06"
         t = {"pk": T.PUBLIC_KEY, "salt": T.SALT}[name]
         v = hd[t]
         if r[name] == "corrupt" and how is not None:
             v = corrupt(v, how)
+        elif r[name] in LEN_KINDS:
+            v = alter_len(v, r[name])
         return t, v
 
     def build_m2(self, r, wire, partial, honest, how=None, cut_bytes=None) -> bytes:
@@ -352,7 +365,7 @@ class PSWorld:
     def _item4(self, r, name, honest, how):
         hd = dict(honest)
         if name == "state":
-            return T.STATE, (b"\x04" if r["st"] == "ok" else b"\x01")
+            return T.STATE, _PS_STATE[r["st"]](4)
         if name == "error":
             return T.ERROR, b"\x06"
         if name == "enc":
@@ -375,6 +388,8 @@ class PSWorld:
             v = b""
         elif r["proof"] == "padded":
             v = b"\x00" + v
+        elif r["proof"] in ("prefix63", "extended", "double"):
+            v = alter_len(v, r["proof"])
         return T.PROOF, v
 
     def build_m4(self, r, wire, partial, honest, how=None, cut_bytes=None) -> bytes:
@@ -387,6 +402,14 @@ class PSWorld:
     # ---- M6
     def _enc6(self, r, how):
         ps = self.ps
+        flip = r.get("alter", "flip") == "flip"
+
+        def altered(v, site):
+            if r["corrupt"] != site:
+                return v
+            if not flip:
+                return alter_len(v, r["alter"])
+            return corrupt(v, how) if how is not None else v
         k = ps.srp.K
         if r["enc"] == "reflect":
             blob = bytes(dict(self.m5_items)[T.ENCRYPTED_DATA])
@@ -406,30 +429,23 @@ class PSWorld:
                     "permuted": lambda: x_acc + presented.pk + self.acc_id}[r["info"]]()
             sub = []
             if r["id"] != "absent":
-                v = self.acc_id
-                if r["corrupt"] == "id" and how is not None:
-                    v = corrupt(v, how)
+                v = altered(self.acc_id, "id")
                 self.presented_id = v
                 sub.append((T.IDENTIFIER, v))
             if r["pk"] != "absent":
-                v = presented.pk
-                if r["corrupt"] == "pk" and how is not None:
-                    v = corrupt(v, how)
+                v = altered(presented.pk, "pk")
                 self.presented_pk = v
                 sub.append((T.PUBLIC_KEY, v))
             if r["sigp"]:
-                v = signer.sign(info)
-                if r["corrupt"] == "sig" and how is not None:
-                    v = corrupt(v, how)
+                v = altered(signer.sign(info), "sig")
                 sub.append((T.SIGNATURE, v))
             blob = C.seal(key, C.label_nonce(r["nonce"].encode()), T.enc(sub))
-        if r["corrupt"] == "enc" and how is not None:
-            blob = corrupt(blob, how)
+        blob = altered(blob, "enc")
         return blob
 
     def _item6(self, r, name, how):
         if name == "state":
-            return T.STATE, (b"\x06" if r["st"] == "ok" else b"\x01")
+            return T.STATE, _PS_STATE[r["st"]](6)
         if name == "error":
             return T.ERROR, b"\x06"
         return T.ENCRYPTED_DATA, self._enc6(r, how)
